@@ -528,6 +528,13 @@ def random_ops(rng, w, n):
 
 
 _call = re.compile(r'Call\("(\w+)"\)')
+_refused_locked = re.compile(r'count \|-> [1-9].*out \|-> "(?!ok)|out \|-> "(?!ok)\w+".*count \|-> [1-9]', re.S)
+
+
+def close(ops):
+    """Follow a call sequence through to the end: as many unlocks as it has lock calls (reaching the matching last
+    unlock whatever was refused on the way) plus one surplus unlock."""
+    return list(ops) + ["unlock"] * (sum(1 for o in ops if o.startswith("lock_")) + 1)
 
 
 def run(ctx):
@@ -561,6 +568,10 @@ def run(ctx):
             ctx.machinery("empty transition cover for %s" % w)
         total = len(paths)
         if cap and len(paths) > cap:
+            # keep first the paths with calls refused while the wrapper is locked (bad-token re-lock, write-in-read)
+            def refused_while_locked(p):
+                return sum(1 for _, nid in p[1:] if _refused_locked.search(nodes[nid]))
+            paths.sort(key=refused_while_locked, reverse=True)
             paths = paths[:cap]
         else:
             ctx.cov["exhaustive_transition_cover_" + w] = True
@@ -573,12 +584,27 @@ def run(ctx):
                 if not m:
                     ctx.machinery("unexpected edge label %r" % act)
                 ops.append(m.group(1))
-            jobs.append((w, ops))
+            jobs.append((w, close(ops)))
     n_cover = len(jobs)
+    # directed follow-through (both tiers, every wrapper): a call refused while locked at depth 1..3, then down to the
+    # matching last unlock and one surplus unlock
+    for w in WRAPPERS:
+        ops_w = OPS.get(w, TOK_OPS)
+        for depth in (1, 2, 3):
+            for first in ("lock_write", "lock_tree_write", "lock_read"):
+                if first not in ops_w:
+                    continue
+                for refused in ("lock_write_bad", "lock_write", "lock_write_good", "lock_tree_write"):
+                    if refused not in ops_w:
+                        continue
+                    for reps in (1, 2):
+                        jobs.append((w, close([first] * depth + [refused] * reps)))
+                        jobs.append((w, close([first] * depth + [refused] * reps + [first])))
+    n_directed = len(jobs) - n_cover
     # E3: call sequences chosen by the harness, longer than the model-checked bound
     for w in WRAPPERS:
         for _ in range(40 if ctx.quick else 400):
-            jobs.append((w, random_ops(ctx.rng, w, ctx.rng.randint(9, 30))))
+            jobs.append((w, close(random_ops(ctx.rng, w, ctx.rng.randint(9, 30)))))
     core.fork_map(ctx, _replay_chunk, jobs)
     rows = [r for x in ctx.collected for r in x["rows"]]
     skipped = sum(x["skipped"] for x in ctx.collected)
@@ -593,9 +619,11 @@ def run(ctx):
         if smp is not None:
             ctx.sample(smp)
     ctx.rule("call sequences = transition cover (every edge) of TLC's state graph of CountedLockMC with MaxCalls=%d per "
-             "wrapper variant (%d sequences%s) plus %d harness-chosen random sequences of 9..30 calls; each executed on a "
-             "fresh real object; non-trivial = contains a refused call or nesting depth >= 2"
-             % (maxcalls, n_cover, ", capped at %d per wrapper" % cap if cap else "", len(jobs) - n_cover))
+             "wrapper variant (%d sequences%s), %d directed sequences (a call refused while locked at depth 1..3) and %d "
+             "harness-chosen random sequences of 9..30 calls, every sequence followed through with as many unlocks as it has "
+             "lock calls plus one surplus unlock; each executed on a fresh real object; non-trivial = contains a refused call or nesting depth >= 2"
+             % (maxcalls, n_cover, ", capped at %d per wrapper, refused-while-locked first" % cap if cap else "", n_directed,
+                len(jobs) - n_cover - n_directed))
     corrupted = selftest_rows(ctx, rows, tolerant=bool(skipped))
     for off in range(0, len(rows), 20000):
         part = rows[off:off + 20000]
